@@ -340,6 +340,17 @@ func runCase(c Case, st *Stats) *ev.Failure {
 			case <-time.After(10 * time.Second):
 				return ev.Failf("op %d: after a %s query whose client went away mid-response, the next arriving message is never stored (the store is blocked)", i, o.Format)
 			}
+		case "getraw":
+			// a query string that cannot be parsed at all (o.Path holds it as the client wrote it): an
+			// invalid query, whatever else it says
+			st.Queries++
+			w := httptest.NewRecorder()
+			req := httptest.NewRequest("GET", "/records", nil)
+			req.URL.RawQuery = o.Path
+			flowRecordHandler(w, req)
+			if w.Code != http.StatusBadRequest {
+				return ev.Failf("op %d: GET /records?%s (a query string that does not parse) answered %d with %d bytes, want 400", i, o.Path, w.Code, w.Body.Len())
+			}
 		case "get":
 			st.Queries++
 			q := []string{}
@@ -464,6 +475,8 @@ func genCase(t *rapid.T) Case {
 			c.Ops = append(c.Ops, o)
 		case k <= 9:
 			c.Ops = append(c.Ops, Op{Kind: "burst", N: rapid.SampledFrom([]int{1, 5, 100, 4090, 4095, 4096, 4097, 5000}).Draw(t, "burst")})
+		case k == 16 && rapid.IntRange(0, 3).Draw(t, "raw") == 0:
+			c.Ops = append(c.Ops, Op{Kind: "getraw", Path: rapid.SampledFrom([]string{"count=%zz", "count=1;format=text", "count=1&format=%zz", "count=%", "%gh=1", "count=2&%", "format=text;count=1"}).Draw(t, "rawquery")})
 		case k <= 16:
 			c.Ops = append(c.Ops, Op{Kind: "get",
 				Count:  rapid.SampledFrom([]string{"-", "-", "0", "1", "2", "3", "17", "4095", "4096", "4097", "100000", "-1", "abc", "1.5", "", "010", "0010", "08", "009", "0x10", "0b11", "0o7", "1_0", "+5", " 5", "1e3"}).Draw(t, "count"),
